@@ -48,7 +48,7 @@ func genC05(t *rapid.T) c05Scen {
 			Clean2: rapid.IntRange(0, 4).Draw(t, "clean2") == 0, Terminate: rapid.IntRange(0, 7).Draw(t, "term") == 0}
 		l.End = rapid.SampledFrom([]string{"disconnect", "kill", "kill"}).Draw(t, "end")
 		if l.V == 5 {
-			l.Expiry1 = rapid.SampledFrom([]int{-1, 0, 1, 2, 100}).Draw(t, "expiry1")
+			l.Expiry1 = rapid.SampledFrom([]int{-1, 0, 1, 2, 100, 4294967295}).Draw(t, "expiry1") // 0xFFFFFFFF: never expires
 			if rapid.IntRange(0, 3).Draw(t, "newexp") == 0 {
 				l.End = "disconnect_expiry"
 				l.NewExpiry = rapid.SampledFrom([]int{0, 1, 2, 100}).Draw(t, "newexpiry")
